@@ -146,6 +146,8 @@ def one_case(ctx, rng, idx, probe=False):
     filehash = rng.random() < 0.25
     tfp = rng.random() < 0.25
     nres = rng.randint(1, 3)
+    # the fields may carry an `outputFormat` property that only *another* dumper of the flow is asked to honour
+    has_of = tfp or rng.random() < 0.4
     resources = [gen_resource(rng, fmt, probe, i) for i in range(nres)]
     base = os.path.join(ctx.scratch, 'c%d' % idx)
     steps = []
@@ -154,11 +156,11 @@ def one_case(ctx, rng, idx, probe=False):
     for i, (fields, rows) in enumerate(resources):
         for n, t in fields:
             kw = {}
-            if tfp and t == 'date':
+            if has_of and t == 'date':
                 f_ = rng.choice(['%d/%m/%Y', '%Y%m%d', '%m/%d/%Y', None])
                 if f_:
                     kw['outputFormat'] = f_
-            if tfp and t == 'datetime':
+            if has_of and t == 'datetime':
                 f_ = rng.choice(['%Y%m%dT%H%M%S', '%d/%m/%Y %H:%M:%S', None])
                 if f_:
                     kw['outputFormat'] = f_
@@ -166,7 +168,7 @@ def one_case(ctx, rng, idx, probe=False):
                 # how the numbers were written where they came from; the dump records its own dialect
                 kw.update(rng.choice([{'decimalChar': ',', 'groupChar': '.'}, {'groupChar': '.'}, {'decimalChar': ','},
                                       {'groupChar': ' ', 'bareNumber': False}]))
-            if tfp and t == 'time':
+            if has_of and t == 'time':
                 f_ = rng.choice(['%H.%M.%S', None])
                 if f_:
                     kw['outputFormat'] = f_
@@ -197,12 +199,21 @@ def one_case(ctx, rng, idx, probe=False):
     kw = dict(format=fmt, add_filehash_to_path=filehash)
     if tfp:
         kw['temporal_format_property'] = 'outputFormat'
+    # a flow may hold several dumpers (another format, other options): each writes what *its* options say
+    second = rng.choice([None, None, None, 'before', 'after', 'after'])
+    other_kw = dict(format='json' if fmt == 'csv' else 'csv') if rng.random() < 0.6 else dict(format=fmt)
+    if not tfp or rng.random() < 0.5:
+        other_kw['temporal_format_property'] = 'outputFormat' if not tfp else 'noSuchProperty'
+    if second == 'before':
+        steps.append(DF.dump_to_path(base + '-other', **other_kw))
     if target == 'path':
         steps.append(DF.dump_to_path(base, **kw))
     else:
         os.makedirs(base, exist_ok=True)
         steps.append(DF.dump_to_zip(os.path.join(base, 'o.zip'), **kw))
-    case = {'format': fmt, 'target': target, 'add_filehash_to_path': filehash, 'temporal_format_property': tfp,
+    if second == 'after':
+        steps.append(DF.dump_to_path(base + '-other', **other_kw))
+    case = {'format': fmt, 'second_dumper': [second, other_kw] if second else None, 'target': target, 'add_filehash_to_path': filehash, 'temporal_format_property': tfp,
             'row_key_order': key_order, 'incoming_encoding': src_encoding, 'emptied_resources': emptied,
             'resources': [{'fields': f, 'rows': canon._plain(r)} for f, r in resources], 'probe': probe}
     try:
